@@ -91,7 +91,8 @@ func installHook(sim *Sim, emit func(trace.M)) {
 			for d, c := range g.Domains {
 				doms[d] = int(c)
 			}
-			topo = append(topo, trace.M{"key": key, "type": g.Type, "inverse": g.Inverse, "maxSkew": int(g.MaxSkew), "minDomains": int(g.MinDomains),
+			selm, selOther := ParseSelector(g.Selector) // C02: structured selector (topo.go)
+			topo = append(topo, trace.M{"selm": selm, "selOther": selOther, "key": key, "type": g.Type, "inverse": g.Inverse, "maxSkew": int(g.MaxSkew), "minDomains": int(g.MinDomains),
 				"ns": append([]string{}, g.Namespaces...), "selector": g.Selector, "owned": g.Owned, "selects": g.Selects, "owners": owners, "domains": doms})
 		}
 		m["topo"] = topo
